@@ -198,18 +198,26 @@ def run(tier):
                     {'body': cp.body[:40], 'want': rb[:40]}, klass=feats['class'])
                 break
     # ---- law 5: update_body respects framing and content-encoding
-    for chunked, enc, kind, newbody in itertools.product((False, True), (None, b'gzip', b'br'), ('request', 'response'),
-                                                         (b'', b'n', b'new-body', bytes(range(256)))):
+    # `history`: what happened to the parser object before update_body -- nothing / it was already serialised once
+    # (an earlier plugin of the chain, a cache) / its body was already replaced once
+    for chunked, enc, kind, newbody, history in itertools.product(
+            (False, True), (None, b'gzip', b'br'), ('request', 'response'), (b'', b'n', b'new-body', bytes(range(256))),
+            ('fresh', 'built-before', 'updated-before')):
         n += 1
         hs = [(b'Host', b'h', b'Host: h')]
         if enc:
             hs.append((b'Content-Encoding', enc, b'Content-Encoding: ' + enc))
         start = (b'POST', b'/u', b'HTTP/1.1') if kind == 'request' else (b'HTTP/1.1', b'200', b'OK')
         m = httpgen.build(kind, start, hs, 'chunked' if chunked else 'cl', b'old')
-        case = {'chunked': chunked, 'content_encoding': enc, 'kind': kind, 'new_body': newbody[:20]}
+        case = {'chunked': chunked, 'content_encoding': enc, 'kind': kind, 'new_body': newbody[:20], 'history': history}
         try:
             p = HttpParser(httpParserTypes.REQUEST_PARSER if kind == 'request' else httpParserTypes.RESPONSE_PARSER)
             p.parse(memoryview(m.raw))
+            if history == 'built-before':
+                _ = p.build() if kind == 'request' else p.build_response()
+            elif history == 'updated-before':
+                p.update_body(b'an earlier replacement body, longer than the final one', b'text/plain')
+                _ = p.build() if kind == 'request' else p.build_response()
             p.update_body(newbody, b'text/plain')
             y2 = p.build() if kind == 'request' else p.build_response()
         except Exception as e:  # noqa
